@@ -60,6 +60,9 @@ type Node struct {
 	// same process, same keepers. Whatever the application keeps outside the store survives it.
 	Spec  int64
 	Specs int
+	// BranchReads, when set, is called with the branch of a transaction that is about to be rolled back (fault
+	// "abort"): the engine reads through the keepers what a later message of the same transaction could read.
+	BranchReads func(ctx sdk.Context)
 	App    *app.OsmosisApp
 	DB     dbm.DB
 	Home   string
@@ -404,6 +407,19 @@ func (n *Node) DeliverOn(parent sdk.Context, msg sdk.Msg, gasLimit uint64, force
 	res.Resp = r
 	res.Events = cctx.EventManager().ABCIEvents()
 	if forceAbort {
+		// The transaction being rolled back is a multi-message one: after the message has succeeded, the same message
+		// runs once more on the same branch (it may succeed - adding to the lock it has just created - or be refused -
+		// by a check that reads what the first one wrote), then the engine's reads run on the branch, and only then is
+		// everything discarded. Code that keeps what it saw or wrote on the branch outside the store now holds state
+		// of a transaction that never happened.
+		func() {
+			defer func() { _ = recover() }()
+			rctx := cctx.WithEventManager(sdk.NewEventManager())
+			_, _ = handler(rctx, msg)
+			if n.BranchReads != nil {
+				n.BranchReads(rctx)
+			}
+		}()
 		res.Outcome = "abort"
 		return res
 	}
